@@ -50,15 +50,16 @@ def _integrand(kind):
     raise ValueError(kind)
 
 
-def _make(strat, kind, norm):
+def _make(strat, kind, norm, with_reference=True):
     from sparseSpACE.spatiallyAdaptiveSingleDimension2 import SpatiallyAdaptiveSingleDimensions2
     from sparseSpACE.spatiallyAdaptiveExtendSplit import SpatiallyAdaptiveExtendScheme
     from sparseSpACE.spatiallyAdaptiveCell import SpatiallyAdaptiveCellScheme
     from sparseSpACE.GridOperation import Integration
-    from sparseSpACE.Grid import GlobalTrapezoidalGrid, TrapezoidalGrid
+    from sparseSpACE.Grid import GlobalTrapezoidalGrid, TrapezoidalGrid, GaussLegendreGrid
     from sparseSpACE.Function import CustomFunction
     from sparseSpACE import ErrorCalculator as E
     ev, ref = _integrand(kind)
+    refsol = ref if with_reference else None      # without a reference the driver works on the surplus error estimates alone
     seen = set()
 
     def wrapped(x):
@@ -68,19 +69,22 @@ def _make(strat, kind, norm):
     nrm = np.inf if norm == "inf" else norm
     if strat.startswith("dw"):
         grid = GlobalTrapezoidalGrid(A, B, boundary=True)
-        op = Integration(f, grid=grid, dim=D, reference_solution=ref)
+        op = Integration(f, grid=grid, dim=D, reference_solution=refsol)
         sa = SpatiallyAdaptiveSingleDimensions2(A, B, operation=op, norm=nrm, rebalancing=(strat != "dw_noreb"),
                                                 print_level=LV, log_level=LV)
         eo, lm = E.ErrorCalculatorSingleDimVolumeGuided(), (1, 2)
     elif strat.startswith("es"):
-        grid = TrapezoidalGrid(A, B, boundary=True)
-        op = Integration(f, grid=grid, dim=D, reference_solution=ref)
-        sa = SpatiallyAdaptiveExtendScheme(A, B, operation=op, norm=nrm, version={"es": 0, "es_v1": 1, "es_auto": 0}[strat],
+        # es_gl*: a non-nested grid family (points of coarser grids are not re-used); *_recalc: periodic from-scratch recalculation
+        grid = GaussLegendreGrid(A, B) if strat.startswith("es_gl") else TrapezoidalGrid(A, B, boundary=True)
+        op = Integration(f, grid=grid, dim=D, reference_solution=refsol)
+        sa = SpatiallyAdaptiveExtendScheme(A, B, operation=op, norm=nrm, version={"es_v1": 1}.get(strat, 0),
                                            automatic_extend_split=(strat == "es_auto"))
         eo, lm = E.ErrorCalculatorExtendSplit(), (1, 2)
+        if strat.endswith("_recalc"):
+            sa.refinements_for_recalculate = 2       # the library default (100) is out of reach of a bounded run
     else:
         grid = TrapezoidalGrid(A, B, boundary=True)
-        op = Integration(f, grid=grid, dim=D, reference_solution=ref)
+        op = Integration(f, grid=grid, dim=D, reference_solution=refsol)
         sa = SpatiallyAdaptiveCellScheme(A, B, operation=op, norm=nrm)
         eo, lm = E.ErrorCalculatorSurplusCell(), (2, 2)
     sa.log_util.set_print_level(LV)
@@ -116,7 +120,8 @@ def run_case(case):
         log.append(("R",))
         return orf()
     sa.evaluate_operation, sa.refine = ev_wrap, rf_wrap
-    R = sa.performSpatiallyAdaptiv(lm[0], lm[1], eo, tol=tol, max_evaluations=mx, min_evaluations=mn, print_output=False)
+    R = sa.performSpatiallyAdaptiv(lm[0], lm[1], eo, tol=tol, max_evaluations=mx, min_evaluations=mn, print_output=False,
+                                   recalculate_frequently=strat.endswith("_recalc"))
     evs = [x for x in log if x[0] == "E"]
     pts, errs, surplus = list(R[6]), list(R[5]), list(R[7])
     fails = []
@@ -165,7 +170,7 @@ def run_case(case):
 
 def main(ctx):
     q = ctx.tier == "quick"
-    strategies = ["dw", "dw_noreb", "es", "es_v1", "es_auto", "cell"]
+    strategies = ["dw", "dw_noreb", "es", "es_v1", "es_auto", "cell", "es_gl", "es_gl_recalc", "es_recalc"]
     kinds = ["peak", "vec", "zero", "disc", "peak_tiny", "vec_scaled"] if q else ["peak", "vec", "zero", "disc", "c0", "vec3", "peak_tiny", "vec_scaled"]
     norms = [1, 2, "inf"]
     base = [{"config": {"strategy": s, "integrand": k, "norm": n, "tol": -1, "min_evaluations": 1, "max_evaluations": 90 if q else 150}}
